@@ -377,7 +377,12 @@ impl Components {
 
             // Calculamos la fracción de cada servicio sobre el total
             let mut q_out_frac_by_srv = q_out_by_srv;
-            let out_services: Vec<Service> = q_out_frac_by_srv.keys().cloned().collect();
+            // Fixed service order (not the hash map's) so that results do not vary between runs
+            let out_services: Vec<Service> = Service::SERVICES_ALL
+                .iter()
+                .cloned()
+                .filter(|s| q_out_frac_by_srv.contains_key(s))
+                .collect();
             for service in &out_services {
                 let values = q_out_frac_by_srv[service]
                     .iter()
